@@ -30,7 +30,15 @@ pub fn run(out: &mut Out, thorough: bool, seed: u64, _extra: &[String]) {
         let lg = r.range(2, 5) as usize; let n = 1usize << lg;
         let k = (rep % 6) + 1 + (if rep % 6 == 0 { 1 } else { 0 });          // chains of 1..6 data levels (+ key level)
         let bits: Vec<usize> = (0..k.min(6) + 1).map(|_| *r.pick(&[30usize, 36, 40, 45, 50])).collect();
-        let qs = match pick_primes(&mut r, n, &bits) { Some(v) => v, None => continue };
+        let mut qs = match pick_primes(&mut r, n, &bits) { Some(v) => v, None => continue };
+        // every fourth chain: ADJACENT-WIDTH data primes — bottom-of-range b-bit primes followed by a top-of-range (b+1)-bit prime that is dropped
+        // first (ratio between 2 and 4; single conditional subtractions valid only below 2x fail here), then the key prime
+        if rep % 4 == 2 {
+            let b = *r.pick(&[29usize, 39, 49]).max(&(lg + 3));
+            let lows = crate::c10::ntt_primes_low(n, &[b, b]);
+            if let (2, Ok(tp)) = (lows.len(), std::panic::catch_unwind(|| heathcliff::util::get_primes(2 * n as u64, b + 1, 1)[0].value())) {
+                if tp >= 2 * lows[0] { if let Some(sp) = pick_primes(&mut r, n, &[55]) { qs = vec![lows[0], lows[1], tp, sp[0]]; } } }
+        }
         for scheme in [SchemeType::BFV, SchemeType::BGV, SchemeType::CKKS] {
             let tk = r.below(2); let t = if scheme == SchemeType::CKKS { 0 } else { pick_plain(&mut r, n, tk, &qs) };
             // every third chain (BFV/BGV): all primes after the first are 1 modulo t (the `create_with_plain_modulus` shape: q^-1 mod t = 1, the
@@ -62,8 +70,13 @@ pub fn run(out: &mut Out, thorough: bool, seed: u64, _extra: &[String]) {
                                 Err(_) => { if fits { out.raw(&format!("!FAIL {} :: a switch whose scale fits the next level was refused # ckks-drop-bound", lhs)); } else { out.raw(&format!("!OK {} refused # ckks-drop-bound", lhs)); } }
                                 Ok(res) => {
                                     let dec = std::panic::catch_unwind(std::panic::AssertUnwindSafe(|| enc.decode_new(&s.decryptor.decrypt_new(&res))));
-                                    let good = res.parms_id() == &levels[src + 1] && res.scale().to_bits() == c.scale().to_bits() && dec.map(|d| (d[0].re - 0.75).abs() < 1e-2).unwrap_or(false);
-                                    if good { out.raw(&format!("!OK {} accepted, value kept # ckks-drop-bound", lhs)); }
+                                    // the value is only claimed when the scaled value really fits below half the TRUE target modulus (with bottom-of-range
+                                    // primes bits(Q) overstates log2 Q by up to one bit per prime: an encoding that wraps is the caller's overflow)
+                                    let lq_next: f64 = s.level_qs(&levels[src + 1]).iter().map(|&q| (q as f64).log2()).sum();
+                                    let claim = (sb as f64) + 1.0 < lq_next - 1.0;
+                                    let good = res.parms_id() == &levels[src + 1] && res.scale().to_bits() == c.scale().to_bits() && (!claim || dec.map(|d| (d[0].re - 0.75).abs() < 1e-2).unwrap_or(false));
+                                    if !fits { out.raw(&format!("!FAIL {} :: the switch was accepted although the scale does not fit the target level's modulus (must be refused) # ckks-drop-bound", lhs)); }
+                                    else if good { out.raw(&format!("!OK {} accepted, value kept # ckks-drop-bound", lhs)); }
                                     else { out.raw(&format!("!FAIL {} :: the switch was accepted but the result no longer decodes to the value (scale does not fit the target level) # ckks-drop-bound", lhs)); }
                                 }
                             }
